@@ -18,7 +18,7 @@ accept = Fn(F, ["impl OsIpcOneShotServer", "accept"], ret="r", extra_params=TL,
         Clause("unix.accept/ensures.queued_data_survives_the_clients_exit",
                "r matches Ok((rx, _, _, _)) ==> final(l).lingering.contains(cell_val(&rx.fd))", ["C08"]),
         Clause("unix.accept/ensures.no_descriptor_left_unowned",
-               "no_new_unowned(*old(l), *final(l))", ["C11"]),
+               "no_new_unowned(*old(l), *final(l))", ["C11", "C08"]),
         Clause("unix.accept/ensures.receiver_owns_the_connection",
                "r matches Ok((rx, _, _, _)) ==> final(l).owned.contains(cell_val(&rx.fd)) && final(l).open.contains(cell_val(&rx.fd))", ["C11", "C08"]),
     ],
@@ -37,7 +37,7 @@ accept = Fn(F, ["impl OsIpcOneShotServer", "accept"], ret="r", extra_params=TL,
 server_new = Fn(F, ["impl OsIpcOneShotServer", "new"], ret="r", extra_params=TL,
     requires=[Clause("unix.server_new/requires.ledger_wf", "old(l).owned.subset_of(old(l).open)")],
     ensures=[
-        Clause("unix.server_new/ensures.no_descriptor_left_unowned", "no_new_unowned(*old(l), *final(l))", ["C11"]),
+        Clause("unix.server_new/ensures.no_descriptor_left_unowned", "no_new_unowned(*old(l), *final(l))", ["C11", "C08"]),
         Clause("unix.server_new/ensures.server_owns_the_listener",
                "r matches Ok((srv, _)) ==> final(l).owned.contains(srv.fd) && final(l).open.contains(srv.fd)", ["C11", "C08"]),
         Clause("unix.server_new/ensures.name_is_the_path_the_listening_socket_is_bound_to",
@@ -65,7 +65,7 @@ server_new = Fn(F, ["impl OsIpcOneShotServer", "new"], ret="r", extra_params=TL,
 connect = Fn(F, ["impl OsIpcSender", "connect"], ret="r", extra_params=TL,
     requires=[Clause("unix.connect/requires.ledger_wf", "old(l).owned.subset_of(old(l).open)")],
     ensures=[
-        Clause("unix.connect/ensures.no_descriptor_left_unowned", "no_new_unowned(*old(l), *final(l))", ["C11"]),
+        Clause("unix.connect/ensures.no_descriptor_left_unowned", "no_new_unowned(*old(l), *final(l))", ["C11", "C08"]),
         Clause("unix.connect/ensures.sender_is_connected_to_the_named_server",
                "r matches Ok(s) ==> final(l).connected.contains_key(s.fd) && final(l).connected[s.fd] == string_path(name)\n"
                "&& final(l).owned.contains(s.fd) && final(l).open.contains(s.fd)", ["C08"]),
